@@ -1,5 +1,6 @@
 import BoltonsVerif.C05.Script
 import BoltonsVerif.C05.AcceptProofs
+import BoltonsVerif.C05.AcceptMore
 import BoltonsVerif.C04.Props
 import BoltonsVerif.Generated.C05_Consts
 /-
@@ -690,6 +691,21 @@ theorem accepted_retry_ready (cfg : Cfg) (raises : Bool) (content : Bytes) (fs0 
   exact ⟨hok, (published_content cfg sc2 noFaults _ e h1).1, h4⟩
 
 
+/-- **Probes are free**: observations without effect on the automaton - successful calls without effect
+    on the two names (stat, lstat, fdopen, fcntl, close of a closed object ...) and calls that failed on
+    their own without being a listed step (an `unlink` / `stat` answering ENOENT) - can be inserted or
+    removed anywhere without changing the verdict: how many probes an implementation makes, and where,
+    is not constrained -/
+theorem accept_ignores_probes (cfg : Cfg) (raises ok : Bool) (content : Bytes) (um : Nat) (dm0 : Option Nat) (t : List Obs) :
+    Accept cfg raises ok content um dm0 (dropProbes t) = Accept cfg raises ok content um dm0 t :=
+  accept_dropProbes cfg raises ok content um dm0 t
+
+/-- translator obligation (regenerated from the current source on every run): inside `AtomicSaver`,
+    `atomic_save`, `atomic_rename`, `replace` and `set_cloexec` there is no call by which the file
+    system or the process state could be changed behind the recorder's back (os.sendfile, os.umask,
+    os.chdir, shutil.*, pathlib.*, tempfile.*, subprocess.* ...): the observed traces are complete -/
+theorem source_calls_are_recorded : Gen.unseenCalls = [] := by decide
+
 /-! ### non-vacuity of the acceptance theorems: concrete observed traces -/
 
 /-- what the code does for a plain save over an existing file (mode 0o640) when `os.fsync` is made to fail:
@@ -704,6 +720,8 @@ def obsOtherOrder : List Obs :=
    .ok (.write [87] 0), .ok .flush, .ok .fsync, .ok .close, .ok .renamePartDest]
 
 example : Accept {} false false [78, 69, 87] 0o022 (some 0o640) obsFsyncFails = true := by decide
+example : dropProbes obsFsyncFails = [.ok (.openPart true true 0o640), .ok (.chmodPart 0o640), .ok (.write [78, 69] 0),
+   .ok (.write [87] 0), .ok .flush, .fail true true false, .ok .close, .ok .unlinkPart] := by decide
 example : (replay (M.start fsEx 1) obsFsyncFails).isSome = true ∧ failedBefore obsFsyncFails = true ∧
     unlinkFaulted obsFsyncFails = false ∧ publishes (oks obsFsyncFails) = false := by decide
 example : Accept {} false true [78, 69, 87] 0o022 (some 0o640) obsOtherOrder = true ∧
